@@ -82,15 +82,27 @@ def ident_payloads(tier: str, rnd: random.Random) -> list[bytes]:
     base = bytearray(es_info("95048ESU000W0000"))
     out = [bytes(64), b"\xff" * 64, bytes(base)]
     fields = list(range(0, 5)) + list(range(5, 15)) + list(range(31, 47)) + list(range(51, 63))
-    vals = [0x00, 0x1F, 0x7F, 0x80, 0xC3, 0xE9, 0xFF] if tier == "quick" else list(range(256))
-    pos = fields if tier != "quick" else fields[::3]
-    for p in pos:
+    # every position of every identification field; quick: the characters that change how a field is parsed (NUL, space,
+    # a digit, a letter, DEL, first non-ASCII byte, 0xFF), thorough: every byte value
+    vals = [0x00, 0x20, 0x35, 0x41, 0x7F, 0x80, 0xFF] if tier == "quick" else list(range(256))
+    for p in fields:
         for v in vals:
             b = bytearray(base)
             b[p] = v
             out.append(bytes(b))
+    # fields cut short by padding (a firmware / model / serial of fewer characters than usual)
+    for lo, hi in ((0, 5), (5, 15), (31, 47), (51, 63)):
+        for keep in range(0, hi - lo):
+            for pad in (0x00, 0x20):
+                b = bytearray(base)
+                b[lo + keep:hi] = bytes([pad]) * (hi - lo - keep)
+                out.append(bytes(b))
+    # answers that are shorter (or longer) than the identification block: every length 0..16, then steps
+    for n in list(range(0, 17)) + [24, 31, 32, 40, 47, 48, 63, 65, 80, 128, 255]:
+        out.append(bytes(base[:n]) + bytes(max(0, n - len(base))))
+        out.append(bytes((0x31 + i % 9) for i in range(n)))
     for _ in range(50 if tier == "quick" else 1000):
-        out.append(bytes(rnd.randrange(256) for _ in range(rnd.choice([64, 64, 40, 80, 10, 0]))))
+        out.append(bytes(rnd.randrange(256) for _ in range(rnd.choice([64, 64, 40, 80, 10, 0, 3, 4, 5]))))
     return out
 
 
